@@ -192,3 +192,64 @@ Proof.
   split; [vm_compute; reflexivity|]. split; [vm_compute; reflexivity|].
   eexists. split; [vm_compute; reflexivity|]. split; [vm_compute; discriminate | vm_compute; reflexivity].
 Qed.
+
+(* ---- the oracle of the log-codec check (Spec/WalCodecSpec.v) and layer (1) ----
+   Every run of the check evaluates, on what wal.flush and wal.read did for a generated batch and
+   byte-granular cut positions, `wal_model_agrees` (Go's Write / Sync calls equal flush_calls; on
+   every cut of the written bytes Go's reader returned the records, validLen and status wal_read
+   computes) and the oracle `wal_spec_accepts` (from the frame boundaries of Go's own calls: the
+   reader returned exactly the records whose frames lie completely inside the cut, validLen = their
+   length, no error; judged for rec_ok batches with nothing after the cut). Agreement with the
+   model implies acceptance for every case - any batch, any cut (inside a length word, inside a
+   body, past the end), any observation, no hypothesis: the byte-granular form of C03_reader_prefix
+   (with old = [], a cut at ANY byte instead of at a call boundary, and i determined by the cut). *)
+From Mkdb Require Import Spec.PageCodecSpec Spec.WalCodecSpec Proofs.PageCodecOracle Proofs.WalCodecOracle.
+
+Theorem C03_codec_agreement_implies_acceptance : forall c,
+  wal_model_agrees c = true -> wal_spec_accepts c = true.
+Proof. exact wal_agreement_implies_acceptance. Qed.
+Print Assumptions C03_codec_agreement_implies_acceptance.
+
+(* the reader fact behind it, for the record: a log of rec_ok frames cut at any byte reads back as
+   the complete frames before the cut, and their number is what the oracle's complete_prefix counts *)
+Theorem C03_reader_cut_anywhere : forall rs cut,
+  forallb rec_ok rs = true ->
+  exists n, (n <= length rs)%nat /\
+    complete_prefix (map fsz rs) cut O 0 = (n, frames_len (firstn n rs)) /\
+    wal_read (firstn (N.to_nat cut) (frames rs)) = mkWRR (firstn n rs) (frames_len (firstn n rs)) (Ok tt).
+Proof. exact wal_read_cut. Qed.
+Print Assumptions C03_reader_cut_anywhere.
+
+(* non-vacuity: three records (an empty value, op byte 255, maximal LSN / page / cell), with and
+   without fsync, read at EVERY cut 0 .. 95 of the 93 written bytes: the model's own behaviour is a
+   case on which both functions are true, the oracle judges it (rec_ok, no extra bytes), and the
+   cuts cover 0, 1, 2 and 3 complete records *)
+Definition cx_recs : list walrec :=
+  [mkWR 1 7 4096 0 []; mkWR 255 18446744073709551615 18446744073709551615 4294967295 [ascii_of_N 0; ascii_of_N 255];
+   mkWR 2 9 8192 3 [ascii_of_N 65; ascii_of_N 66; ascii_of_N 67; ascii_of_N 68]].
+Definition cx_cuts : list N := map N.of_nat (List.seq 0 96).
+
+Example C03_codec_agreement_nonvacuous :
+  forallb (fun fs => let c := wal_self_case fs cx_recs cx_cuts in
+                     wal_model_agrees c && wal_spec_accepts c && forallb rec_ok (wc_recs c) && no_extra (wc_extra c))
+          [true; false] = true /\
+  frames_len cx_recs = 93 /\
+  map (fun cut => length (rr_entries (wal_read (firstn (N.to_nat cut) (frames cx_recs))))) [0; 28; 29; 59; 60; 92; 93; 95]
+    = [0; 0; 1; 1; 2; 2; 3; 3]%nat.
+Proof. vm_compute. repeat split; reflexivity. Qed.
+
+(* ... and the oracle is not the constant true: a reader that returns the torn third record at cut
+   92, drops the complete second one at cut 60, reports a wrong validLen, or fails with an error,
+   and a flush that leaves out the fsync, are rejected (hence, by the theorem, not what the model does) *)
+Definition one_read (o : wal_readobs) : wal_case :=
+  mkWC cx_recs true [] (map call_obs (flush_calls true cx_recs)) [o].
+
+Example C03_codec_oracle_rejects :
+  map wal_spec_accepts
+      [one_read (mkRO 92 (Pfx 3) 93 ROk); one_read (mkRO 60 (Pfx 1) 29 ROk); one_read (mkRO 60 (Pfx 2) 59 ROk);
+       one_read (mkRO 60 (Pfx 2) 60 RErrEof);
+       mkWC cx_recs true [] (map call_obs (flush_calls false cx_recs)) []]
+    = [false; false; false; false; false] /\
+  wal_spec_accepts (one_read (mkRO 60 (Pfx 2) 60 ROk)) = true /\
+  wal_model_agrees (one_read (mkRO 60 (Pfx 2) 60 ROk)) = true.
+Proof. vm_compute. repeat split; reflexivity. Qed.
